@@ -9,6 +9,7 @@ import (
 	"bytes"
 	"context"
 	"crypto/cipher"
+	"crypto/ecdh"
 	"encoding/binary"
 	"errors"
 	"fmt"
@@ -27,6 +28,10 @@ const BuildByUtls ClientHelloBuildStatus = 1
 const BuildByGoTLS ClientHelloBuildStatus = 2
 
 type UConn struct {
+	// extraEcdheKeys holds the private keys of classical key shares after the
+	// first one (which lives in HandshakeState.State13.KeyShareKeys.Ecdhe).
+	extraEcdheKeys map[CurveID]*ecdh.PrivateKey
+
 	*Conn
 
 	Extensions        []TLSExtension
